@@ -346,7 +346,16 @@ def _remap_nodes(node, idmap, nodes, parent, par=None):
                     stack.append((c, n))
 
 
+LOADED = []     # (view, Program) of this process, for the evidence writer
+
+
 def load(view="release", verbose=False):
+    P = _load(view, verbose)
+    LOADED.append((view, P))
+    return P
+
+
+def _load(view="release", verbose=False):
     paths, h = TU.extract(views=(view,), verbose=verbose)
     import hashlib
     with open(os.path.abspath(__file__), "rb") as f:
